@@ -25,7 +25,11 @@ Rep(s, old, new, i) ==
   IF i + Len(old) > Len(s) THEN SubSeq(s, i + 1, Len(s))
   ELSE IF OccursAt(s, old, i) THEN new \o Rep(s, old, new, i + Len(old))
   ELSE <<s[i + 1]>> \o Rep(s, old, new, i + 1)
-Replace(s, old, new) == Rep(s, old, new, 0)
+\* an empty `old` occurs at every character boundary, the two ends included ("ab" -> "-a-b-": what the crate's own unit
+\* test of the matcher fixes): the replacement goes in front of every character and after the last one
+RECURSIVE InsertAll(_, _, _)
+InsertAll(s, new, i) == IF i > Len(s) THEN new ELSE new \o <<s[i]>> \o InsertAll(s, new, i + 1)
+Replace(s, old, new) == IF old = <<>> THEN InsertAll(s, new, 1) ELSE Rep(s, old, new, 0)
 
 \* split on a non-empty pattern: pieces between leftmost non-overlapping occurrences
 RECURSIVE Spl(_, _, _, _)
